@@ -34,6 +34,7 @@ type scriptReader struct {
 	errAt     int // position at which an error is injected (-1: never)
 	errFired  bool
 	errSticky bool
+	errVal    error // the error injected at errAt (nil: errInjected)
 	reads     int
 	// idleN > 0: at position idleAt the transport returns (0, nil) idleN times in a row (an idle link that was opened with
 	// a read timeout, a misbehaving wrapper) before it goes on
@@ -48,6 +49,9 @@ func (s *scriptReader) Read(p []byte) (int, error) {
 	}
 	if s.errAt >= 0 && s.pos == s.errAt && (!s.errFired || s.errSticky) {
 		s.errFired = true
+		if s.errVal != nil {
+			return 0, s.errVal
+		}
 		return 0, errInjected
 	}
 	if s.pos >= len(s.data) {
@@ -161,8 +165,8 @@ func (e *c05env) run(stream []byte, sr *scriptReader, tag string) (res []rdResul
 			return res, ok
 		}
 		if r.class == 2 {
-			if err == io.EOF {
-				break
+			if err == io.EOF && sr.pos >= len(sr.data) {
+				break // the real end of the stream (an io.EOF injected earlier was the transport's one-off answer)
 			}
 			if sr.errSticky {
 				break
@@ -331,6 +335,27 @@ func (e *c05env) idles(stream []byte, frames []*ref.FrameSpec, r *vh.RNG) {
 		e.rep.Eval(1)
 		_, _ = e.run(stream, &scriptReader{data: stream, errAt: -1, every: 64, idleAt: mid, idleN: n}, fmt.Sprintf("idle x%d @%d", n, mid))
 	}
+	// a transport that answers with an error once, at a frame boundary, and then goes on delivering (a log file that is
+	// still growing reports io.EOF until more has been written; a one-off I/O error): the error is passed on, and the
+	// frames that arrive afterwards are returned like any others
+	for _, ev := range []error{io.EOF, errInjected} {
+		at := bounds[r.Intn(len(bounds))]
+		if at >= len(stream) {
+			at = bounds[0]
+		}
+		e.rep.Eval(1)
+		e.rep.Count("transient_error_at_boundary_runs", 1)
+		res, ok := e.run(stream, &scriptReader{data: stream, errAt: at, errVal: ev, every: 64}, fmt.Sprintf("transient %v @%d (frame boundary)", ev, at))
+		if ok {
+			var kept []rdResult
+			for _, x := range res {
+				if x.class != 2 {
+					kept = append(kept, x)
+				}
+			}
+			e.completeness(stream, frames, kept)
+		}
+	}
 }
 
 // faults injects a transport error at every byte offset (transient and persistent).
@@ -437,6 +462,28 @@ func (g *c05gen) cleanStream(maxLen int) ([]byte, []*ref.FrameSpec) {
 	for i := 0; i < n; i++ {
 		if g.r.Chance(1, 3) {
 			out = append(out, g.junk(false)...)
+		}
+		if g.env.key != nil && g.r.Chance(1, 4) && len(out) < maxLen-300 {
+			// a complete frame of the other protocol version, or a complete unsigned v2 frame: rejected by a reader that
+			// demands signatures, as a unit - the authenticated frames that follow are still returned. Marker bytes inside
+			// it (sequence number 0xFD, payload bytes) are part of that frame.
+			ver := 1 + g.r.Intn(2)
+			u := c01random(g.r, c01cfg{version: ver})
+			if g.env.drw != nil {
+				for g.env.drw.GetMessage(u.MsgID) != nil {
+					u.MsgID = (u.MsgID + 7) & 0xFF
+				}
+			}
+			switch g.r.Intn(3) {
+			case 0:
+				u.Seq = 0xFD
+			case 1:
+				if len(u.Payload) > 0 {
+					u.Payload[g.r.Intn(len(u.Payload))] = 0xFD
+				}
+			}
+			out = append(out, ref.Serialize(u)...)
+			g.env.rep.Count("unsigned_complete_frames_in_keyed_clean_streams", 1)
 		}
 		s, w := g.validFrame()
 		if len(out)+len(w) > maxLen && len(frames) > 0 {
